@@ -22,8 +22,8 @@ type jsRule struct {
 	RHS    []int    `json:"rhs"`
 	Prec   int      `json:"prec"`
 	Action int      `json:"action"`
-	Type   *int     `json:"type,omitempty"` // nil = -1 (unset)
-	Flags  []string `json:"flags,omitempty"`
+	Type   *int     `json:"type"` // nil = -1 (unset); always emitted
+	Flags  []string `json:"flags"`
 }
 
 type jsInput struct {
@@ -134,6 +134,13 @@ func (g *jsGrammar) normalize() {
 	}
 	for i := range g.Rules {
 		g.Rules[i].RHS = ints(g.Rules[i].RHS)
+		if g.Rules[i].Type == nil {
+			m1 := -1
+			g.Rules[i].Type = &m1
+		}
+		if g.Rules[i].Flags == nil {
+			g.Rules[i].Flags = []string{}
+		}
 	}
 	for i := range g.Prec {
 		g.Prec[i].Terms = ints(g.Prec[i].Terms)
@@ -282,7 +289,8 @@ func lalrDump(args []string) error {
 // ---- seeded random grammars with biased shapes (DESIGN 3.11)
 
 type rgen struct {
-	r *rand.Rand
+	r   *rand.Rand
+	dup bool
 }
 
 func (x *rgen) grammar(id int, prec bool) jsGrammar {
@@ -309,6 +317,12 @@ func (x *rgen) grammar(id int, prec bool) jsGrammar {
 		case 3: // list with separator
 			e := anySym()
 			addRule(a, a, term(), e)
+			addRule(a, e)
+		case 5: // list whose first element may also be another nonterminal in the same role
+			e := anySym()
+			t := term()
+			addRule(a, a, t, e)
+			addRule(a, nonterm(), t, e)
 			addRule(a, e)
 		case 4: // binary expression (ambiguous unless precedence)
 			addRule(a, a, term(), a)
@@ -347,9 +361,73 @@ func (x *rgen) grammar(id int, prec bool) jsGrammar {
 		}
 	}
 	g.Rules = rules
+	if x.dup && nNT >= 1 {
+		// duplicate one nonterminal's rules under a fresh nonterminal and use the copy somewhere:
+		// gives the minimizer equivalent states to merge
+		src := nonterm()
+		cp := nS
+		nS++
+		nNT++
+		g.NS = nS
+		var extra []jsRule
+		for _, rl := range g.Rules {
+			if rl.LHS == src {
+				rhs := append([]int{}, rl.RHS...)
+				for k := range rhs {
+					if rhs[k] == src && r.Intn(2) == 0 {
+						rhs[k] = cp
+					}
+				}
+				extra = append(extra, jsRule{LHS: cp, RHS: rhs})
+			}
+		}
+		g.Rules = append(g.Rules, extra...)
+		host := nT + r.Intn(nNT)
+		g.Rules = append(g.Rules, jsRule{LHS: host, RHS: []int{term(), cp}})
+		if r.Intn(2) == 0 {
+			g.Rules = append(g.Rules, jsRule{LHS: host, RHS: []int{term(), src}})
+		}
+		for i := range g.Rules {
+			switch r.Intn(6) {
+			case 0:
+				g.Rules[i].Action = 1 + r.Intn(2)
+			case 1:
+				ty := r.Intn(2)
+				g.Rules[i].Type = &ty
+			case 2:
+				g.Rules[i].Flags = []string{"f"}
+			}
+		}
+	}
+	if r.Intn(4) == 0 { // state markers: transparent symbols that occupy no stack slot
+		g.Markers = []string{"m0", "m1"}
+		for i := range g.Rules {
+			if r.Intn(3) == 0 {
+				pos := r.Intn(len(g.Rules[i].RHS) + 1)
+				rhs := append([]int{}, g.Rules[i].RHS[:pos]...)
+				rhs = append(rhs, -1-r.Intn(2))
+				g.Rules[i].RHS = append(rhs, g.Rules[i].RHS[pos:]...)
+			}
+		}
+	}
 	g.Inputs = []jsInput{{nT, r.Intn(4) != 0}}
 	if nNT > 1 && r.Intn(3) == 0 {
 		g.Inputs = append(g.Inputs, jsInput{nT + 1 + r.Intn(nNT-1), r.Intn(2) == 0})
+	}
+	if x.dup && r.Intn(3) == 0 { // several inputs, possibly the same nonterminal twice (C06 only)
+		// like a synthetic lookahead input: possibly a nonterminal that is already an input, then no-eoi
+		in := jsInput{nT + r.Intn(nNT), r.Intn(2) == 0}
+		for _, old := range g.Inputs {
+			if old.NT == in.NT {
+				in.Eoi = false
+				if !old.Eoi {
+					in.NT = -1
+				}
+			}
+		}
+		if in.NT >= 0 {
+			g.Inputs = append(g.Inputs, in)
+		}
 	}
 	if prec {
 		perm := r.Perm(nT - 1)
@@ -378,8 +456,9 @@ func (x *rgen) grammar(id int, prec bool) jsGrammar {
 func lalrRandom(args []string) error {
 	n, _ := strconv.Atoi(args[0])
 	seed, _ := strconv.ParseInt(os.Getenv("VERIF_SEED"), 10, 64)
-	x := &rgen{rand.New(rand.NewSource(seed*1000003 + 3))}
+	x := &rgen{r: rand.New(rand.NewSource(seed*1000003 + 3))}
 	prec := len(args) > 2 && args[2] == "prec"
+	x.dup = len(args) > 2 && args[2] == "dup"
 	w, err := newNDWriter(args[1])
 	if err != nil {
 		return err
